@@ -334,8 +334,11 @@ func (p *PHYPayload) DecryptJoinAcceptPayload(key AES128Key) error {
 		return errors.New("lorawan: MACPayload must be of type *DataPayload")
 	}
 
-	// append MIC to the ciphertext since it is encrypted too
-	ct := append(dp.Bytes, p.MIC[:]...)
+	// append MIC to the ciphertext since it is encrypted too (into a new
+	// slice: appending to dp.Bytes would write into its spare capacity)
+	ct := make([]byte, 0, len(dp.Bytes)+len(p.MIC))
+	ct = append(ct, dp.Bytes...)
+	ct = append(ct, p.MIC[:]...)
 
 	if len(ct)%16 != 0 {
 		return errors.New("lorawan: plaintext must be a multiple of 16 bytes")
